@@ -153,9 +153,11 @@ def run(chk, replay=None):
           ('binomial.binary_conditional_likelihood_test', lambda fa, fb, c: be.binary_conditional_likelihood_test(fa, c, num_simulations=8, seed=3), False, False),
           ('binomial.binary_paired_t_test', lambda fa, fb, c: be.binary_paired_t_test(fa, fb, c), True, False),
           ('brier.brier_score_test', lambda fa, fb, c: br.brier_score_test(fa, c, num_simulations=8, seed=3), False, False)]
-    n_in = 6 if quick else 240
+    n_in = 9 if quick else 240
     for t in range(n_in):
         nc, nb = rng.choice([(4, 1), (6, 2), (8, 3)])
+        if t in (0, 2, 4):
+            nc, nb = 8, 3          # (the complete lattice with its three orderly re-orderings is always among the inputs)
         n_ev = rng.choice([2, 3, 6, 20])
         events = [(rng.randrange(nc), rng.randrange(nb), rng.randrange(6)) for _ in range(n_ev)]
         if len({(c, b) for c, b, _ in events}) < 2:
@@ -174,6 +176,10 @@ def run(chk, replay=None):
         p_cell = list(range(nc))
         while p_cell == list(range(nc)):
             rng.shuffle(p_cell)
+        if nc == 8 and t % 2 == 0:
+            # orderly re-orderings of the complete 4 x 2 lattice: column by column, each column north to south / south to north
+            # (a random shuffle practically never lists a complete grid in such an order)
+            p_cell = [[4, 0, 5, 1, 6, 2, 7, 3], [0, 4, 1, 5, 2, 6, 3, 7], [7, 3, 6, 2, 5, 1, 4, 0]][(t // 2) % 3]
         _, fa_p, fb_p, _ = gridded_world(nc, nb, perm=p_cell, seed=chk.seed * 100 + t, via_file=(t % 2 == 1), mirror=mirror)
         for name, fn, analytic, simfree in GT:
             base = guarded_timeout(30, fn, fa, fb, gridded_catalog(org, events, ident, fa.region, mags))
